@@ -17,7 +17,7 @@ def pad_sets():
 
 def run(tier, replay=None):
     res = common.Result('C03', tier, 'exploration')
-    per_class = 400 if tier == 'quick' else 20000
+    per_class = 1000 if tier == 'quick' else 20000
     pad, nopad = pad_sets()
     exe = common.hbuild('h_codec', ['h_codec.cpp'], 'asan', need_reflect=True)
     env = common.san_env(dict(VERIF_PADSET=','.join(map(str, pad)), VERIF_NOPADSET=','.join(map(str, nopad))))
